@@ -4,7 +4,8 @@ C42  Timed resets and press counters behave as configured.
 Every theorem is about EVERY trace the monitor `BinaryTimers.step?` accepts (any length, any
 configuration, any time stamps); the implementation's traces are checked for acceptance on every run.
 `lastOnTime tr` is the time of the last 'on' telegram (GroupValueWrite/Response with value on, or
-`set_on()`) in the observed trace, `outsOf tr` the outputs observed, `writesOf tr` the write
+`set_on()`) in the observed trace — telegrams the device must ignore (`ig`: undecodable payload, GroupValueRead)
+do not count, and the theorems hold with any number of them anywhere in the trace —, `outsOf tr` the outputs observed, `writesOf tr` the write
 telegrams (most recent first).
 -/
 import XknxVerif.Lemmas.BinaryTimers
@@ -115,8 +116,15 @@ theorem stays_on_until_deadline {c : Cfg} {pre mid : List Obs} {s1 s2 : St} {l r
     | input s1 r0 he ha hr0 hs =>
       subst hs
       have := hadv ha; subst this
+      by_cases hig : ∃ t, e = Obs.ig t
+      · -- an ignored telegram changes nothing
+        obtain ⟨t0, rfl⟩ := hig
+        have hr' := inputReaction_ig hr0
+        subst hr'
+        exact ⟨hst, ⟨d, hd, hdl⟩, by simp only [react]; omega⟩
+      have hnig : ∀ t, e ≠ Obs.ig t := fun t h => hig ⟨t, h⟩
       have hon' : ∃ t, onInputTime e = some t := by
-        obtain ⟨v, t, _, hc'⟩ := inputReaction_cases hr0
+        obtain ⟨v, t, _, hc'⟩ := inputReaction_cases hr0 hnig
         have hoff := hoke.1
         rcases hc' with ⟨_, ho, _⟩ | ⟨_, ho, _⟩ | ⟨_, ho, _⟩ | ⟨_, ho, _⟩
         · rcases ho with rfl | rfl <;> cases v <;> simp [isOffInput, onInputTime] at hoff ⊢
@@ -236,7 +244,14 @@ theorem counted_events_are_the_telegrams {c : Cfg} (hsw : c.switch = false) (hct
     | input s1 r0 he' ha hr0 hs =>
       subst hs
       have := hadv ha; subst this
-      obtain ⟨v, t, _, hc'⟩ := inputReaction_cases hr0
+      by_cases hig : ∃ t, e = Obs.ig t
+      · obtain ⟨t0, rfl⟩ := hig
+        have hr' := inputReaction_ig hr0
+        subst hr'
+        have hw' : writesOf (hh ++ [Obs.ig t0]) = writesOf hh := by simp [writesOf]
+        exact ⟨by rw [hw']; exact hhist, hnone⟩
+      have hnig : ∀ t, e ≠ Obs.ig t := fun t h => hig ⟨t, h⟩
+      obtain ⟨v, t, _, hc'⟩ := inputReaction_cases hr0 hnig
       rcases hc' with ⟨h', _, _⟩ | ⟨h', _, _⟩ | ⟨_, ho, rfl⟩ | ⟨_, ho, _⟩
       · rw [hsw] at h'; cases h'
       · rw [hsw] at h'; cases h'
@@ -356,6 +371,14 @@ example : accepts ⟨false, none, 500000, false, false⟩
 example : burstCount 500000 true [(600000, false), (300000, true), (0, true)] = 2 := by decide
 example : burstCount 500000 true [(1200000, true), (600000, false), (300000, true)] = 1 := by decide
 
+
+/-- Ignored telegrams (undecodable payload, GroupValueRead) inside the reset window change nothing: the 'off'
+callback still comes at 1.0 s; a trace in which they postpone it is rejected. -/
+example : accepts ⟨false, some 1000000, 0, false, false⟩
+    [.tw true 0, .out (.cb (some true) 0 0), .ig 250000, .ig 750000, .q (some true) 0 750000,
+     .out (.cb (some false) 0 1000000), .fin 2000000] = true := by decide
+example : accepts ⟨true, some 1000000, 0, false, false⟩
+    [.tw true 0, .out (.cb (some true) 0 0), .ig 500000, .out (.bw false 1500000)] = false := by decide
 
 /-- The hypotheses of R5 are met by a concrete Switch trace, and the theorem yields the 'off' write. -/
 def exCfg : Cfg := ⟨true, some 1000000, 0, false, false⟩
